@@ -98,7 +98,7 @@ CLAIMS = {
         technique='contract proofs of the selection logic (PyVC + z3); bounded comparison with an independent canonicalizer + UUIDv5'),
     'C07': dict(category='exploration', design_ref='DESIGN.md section 3 C07',
         text='Bounded stand-in carries the granular laws: states reachable by <= 2 adds on 3 base objects x 10 selectors (incl. string-prefix siblings) x 3 markings x flag combinations against a set model; '
-             'object-level operations are proved as set algebra (add = union, remove = difference with MarkingNotFoundError iff absent, is_marked, clear). The selector functions (_evaluate_expression, _validate_selector, validate) are under contract here as well, with a native family over every path and near miss of three objects. The contracts of new_version / _fudge_modified (C05) are obligations of this property as well (section 18.2).',
+             'object-level operations are proved as set algebra (add = union, remove = difference with MarkingNotFoundError iff absent, is_marked, clear). The selector functions (_evaluate_expression, _validate_selector, validate) are under contract here as well, with a native family over every path and near miss of three objects. The contracts of new_version / _fudge_modified (C05) are obligations of this property as well (section 18.2). Proved since section 18.9: expand_markings and compress_markings keep exactly the (kind, marking, selector) triples; granular add_markings gives view(object) united with the added pairs (modular, against those contracts, validate and new_version); idempotence / order-independence / reported-after-adding are lemmas over that contract. Remove / clear / set and the queries stay bounded.',
         note='Granular functions (nested loops over nested data) are outside the verified subset.',
         technique='bounded enumeration against a set model; set-algebra contracts for object-level markings (PyVC + z3 arrays)'),
     'C08': dict(category='other', design_ref='DESIGN.md section 3 C08',
@@ -110,7 +110,7 @@ CLAIMS = {
         text='Bounded stand-in: totality, reflexivity, symmetry, transitivity and SOUNDNESS against an independent evaluator of the patterning semantics on a generated pattern family and 1.6k+ observation sequences; '
              'documented rewrite laws recognised; find == filter. Proved: generic_cmp, iter_in and the comparison-level comparators (comparison_operator_cmp, bool_cmp, generic_constant_cmp, '
              'object_path_component_cmp, simple_comparison_expression_cmp against the contracts of its callees) return 0 exactly for equal operands and their sign is reflexive, antisymmetric and transitive -- '
-             'lemmas over two / three instances of each function\'s own path summary, decided again from the current source on every run.',
+             'lemmas over two / three instances of each function\'s own path summary, decided again from the current source on every run. Also constant_cmp (dispatch over the eight constant kinds, tables re-read from the source) and object_path_cmp, each against the contracts of its own callees (section 18.7, 18.9).',
         note='Soundness beyond the bounded universe is not claimed; ANTLR parser assumed; special-value canonicalisations not exercised. Known finding: a comparison AND whose operands share no object type is refused by the pattern object model (ValueError).',
         technique='bounded enumeration with an independent semantics evaluator; comparator contracts and relational lemmas over path summaries (PyVC + z3)'),
     'C10': dict(category='exploration', design_ref='DESIGN.md section 3 C10',
@@ -119,7 +119,7 @@ CLAIMS = {
         technique='bounded grammar-driven round-trip enumeration with an independent reader'),
     'C13': dict(category='exploration', design_ref='DESIGN.md section 3 C13',
         text='Bounded stand-in: deep snapshots of arguments and of existing objects around 26 public operations singly and in pairs on nested shapes; assignment/deletion refused; deepcopy equal and disjoint (id walk). '
-             'Proved core: __setattr__ refuses every public name; __deepcopy__ builds from copy.deepcopy(self._inner) and stores only into that private copy. parse_into_datetime is proved here with a frame obligation: no attribute store or in-place mutation through any alias of a record argument.',
+             'Proved core: __setattr__ refuses every public name; __deepcopy__ builds from copy.deepcopy(self._inner) and stores only into that private copy. parse_into_datetime is proved here with a frame obligation: no attribute store or in-place mutation through any alias of a record argument. Section 18: two more frame families (filters handed to sources / stores / composites / environments; operands of pattern expressions), the latter after fix f6f0d30.',
         note='General absence of aliasing writes needs an ownership discipline Python lacks: bounded only.',
         technique='bounded frame checking with deep snapshots; contract proofs of __setattr__/__deepcopy__ (PyVC + z3)'),
     'C16': dict(category='other', design_ref='DESIGN.md section 3 C16, section 18',
